@@ -1515,6 +1515,14 @@ def build_cases(tier="quick"):
         ref.append(Case(f"{PROP}/" + c.unit.split("/", 1)[1] + "#word-instruction", c.case, c.harness, replay=c.replay, contracts=c.contracts, sources=c.sources))
     for c in c09.callback_cases() + c09.create_cases():
         ref.append(Case(f"{PROP}/" + c.unit.split("/", 1)[1] + "#frame-end", c.case, c.harness, replay=c.replay, sources=c.sources))
+    # CALLDATACOPY applies the path's substitution to the slice it copies (Chunk.concretize, C07); storage reads of
+    # the generic layout rest on the collision-free stand-in hash and the shape separation of its keys (C08)
+    from contracts import c07, c08
+    from contracts.common import rewrap
+
+    ref += rewrap(PROP, c07.chunk_contract_cases(), "calldatacopy-substitution", lambda c: "concretize" in c.unit)
+    ref += rewrap(PROP, c08.generic_cases(), "generic-layout-keys", lambda c: "simple_hash" in c.unit or "shape-separation" in c.unit)
+    ref += rewrap(PROP, c09.returndata_cases(), "returndata-source")
     return stack_cases() + limit_cases() + env_cases() + memory_cases() + halt_cases() + sha3_cases() + returndata_cases() + ext_cases() + deviation_cases() + ref
 
 
